@@ -156,6 +156,9 @@ func runC19Parallel(ctx *core.Ctx) *core.Violation {
 		}
 	}
 	sr := sched.Run(t, bodies)
+	if sr.Hang != "" {
+		return &core.Violation{Class: "C19/hang", Facts: "in=" + shortFnName(sr.HangIn), Msg: "the call never returns: " + sr.Hang}
+	}
 	if sr.Stuck != "" {
 		panic("harness: scheduler watchdog: " + sr.Stuck)
 	}
